@@ -636,6 +636,9 @@ func init() {
 		}
 		r.refreshChain()
 		c.HitN("chain-height", len(r.hashes))
+		// from here on every log record of the node is formatted (logfmt, debug level) and thrown away: production-like logging, so
+		// that the code in the arguments of log calls runs on what the remote peer sent (a panic there is a panic of the handler)
+		formatLogs()
 		r.pm = protocol.NewProtocolManager(1, r.netId, a.bridge)
 		r.pm.Start()
 
